@@ -147,8 +147,20 @@ func reachableTypes(t types.Type, seen map[types.Type]bool, visit func(types.Typ
 	}
 }
 
+func init() {
+	register("C17", &core.Rule{ID: "C17.9", Title: "no package-level mutable state in the obfuscation processor: what one instance is configured with or learns never reaches another", Mod: core.ModObf, Floor: 0, Run: c17_9, Canary: c16_1Canary})
+}
+
 func c16_1(c *core.Ctx, p *core.Prog) {
-	fns := rootFuncs(c, p)
+	c16_1On(c, p, rootFuncs(c, p), prodPkg)
+}
+
+// c17_9: the same audit over the obfuscation processor's package (instances of the processor are the "streams").
+func c17_9(c *core.Ctx, p *core.Prog) {
+	c16_1On(c, p, obfFuncs(c, p), func(pp string) bool { return pp == core.ObfPath })
+}
+
+func c16_1On(c *core.Ctx, p *core.Prog, fns []*ssa.Function, prodPkg func(string) bool) {
 	mut := mutableStructs(fns)
 	// globals of production packages
 	type gl struct {
@@ -317,7 +329,7 @@ func c16_1(c *core.Ctx, p *core.Prog) {
 		}
 		// a package-level map that is never written is fine; note when it is a map at all
 		c.Check(len(problems) == 0, key, pos, g.Name(), "immutable after init ("+types.TypeString(elemT, func(*types.Package) string { return "" })+")",
-			"package-level variable "+g.Name()+" is shared mutable state: "+strings.Join(problems, "; ")+" — two producer/consumer instances used from different goroutines race on it and can change each other's output")
+			"package-level variable "+g.Name()+" is shared mutable state: "+strings.Join(problems, "; ")+" — two instances (producers / consumers, or processor instances) used side by side race on it and can change each other's output")
 	}
 	c.Stats["package_level_variables"] = len(globals)
 	c.Stats["mutable_struct_types"] = len(mut)
